@@ -40,6 +40,10 @@ impl OutputFormat for Ansi {
         gen.screen_end(buf);
         gen.add_sixels(buf);
         result.extend(gen.get_data());
+        if !options.modern_terminal_output && result.starts_with(&[0xEF, 0xBB, 0xBF]) {
+            // CP437 output must not start with the unicode indicator (see StringGenerator::new): reset the rendition first
+            result.splice(0..0, *b"\x1b[0m");
+        }
 
         if options.save_sauce {
             buf.write_sauce_info(crate::SauceFileType::Ansi, &mut result)?;
